@@ -356,8 +356,13 @@ func (c *FnCtx) checkFrame(frame *Frame, st *State, env *SpecEnv, pos token.Pos)
 		a.objs = append(a.objs, obj)
 	}
 	entry := env.old
+	everyOK := map[string]bool{}
 	for _, m := range fc.Modifies {
 		switch m.Kind {
+		case "every":
+			for _, name := range c.everyArrays(env.pkg, m) {
+				everyOK[name] = true
+			}
 		case "field":
 			obj, err := c.eval(entry, m.Expr)
 			if err != nil {
@@ -425,7 +430,7 @@ func (c *FnCtx) checkFrame(frame *Frame, st *State, env *SpecEnv, pos token.Pos)
 	for _, name := range names {
 		cur := st.heap[name]
 		old := c.heapGet(st.oldHeap, name)
-		if cur == old {
+		if cur == old || everyOK[name] {
 			continue
 		}
 		if name[0] == 'G' {
